@@ -51,6 +51,23 @@ var mapKeyType = NewOneOfStringSchema[any](
 				nil,
 			),
 		),
+		// NewMapSchema also accepts enums as keys, so they have to be describable as well.
+		"enum_integer": NewRefSchema(
+			"IntEnum",
+			NewDisplayValue(
+				PointerTo("Integer enum"),
+				nil,
+				nil,
+			),
+		),
+		"enum_string": NewRefSchema(
+			"StringEnum",
+			NewDisplayValue(
+				PointerTo("String enum"),
+				nil,
+				nil,
+			),
+		),
 	},
 	"type_id",
 	false,
